@@ -14,6 +14,7 @@ run by witness replay against the real numpy build.
 """
 from __future__ import annotations
 
+import builtins as _b
 import itertools
 import operator
 import re
@@ -461,16 +462,16 @@ def leaf_from_bytes(items: list, code: str):
     n = len(items)
     if code == "O":
         raise UnsupportedInShim("frombuffer with object dtype")
-    if all(isinstance(x, int) for x in items):
+    if _b.all(isinstance(x, int) for x in items):
         if code[0] == "f":
             return int.from_bytes(bytes(items), "little")
         if code[0] in "iu":
             return int.from_bytes(bytes(items), "little", signed=(code[0] == "i"))
         if code == "b1":
             return items[0] != 0
-    if code[0] in "iu" and all(isinstance(x, IB) for x in items):
+    if code[0] in "iu" and _b.all(isinstance(x, IB) for x in items):
         x0 = items[0]
-        if x0.w == n and all(x.w == n and x.i == i and x.e.get_id() == x0.e.get_id() for i, x in enumerate(items)):
+        if x0.w == n and _b.all(x.w == n and x.i == i and x.e.get_id() == x0.e.get_id() for i, x in enumerate(items)):
             lo, hi, k = _int_bounds(code)
             e = x0.e
             if E.active():
@@ -644,7 +645,7 @@ class ndarray:
         if not isinstance(key, tuple):
             key = (key,)
         # expand Ellipsis / pad with full slices
-        if any(k is Ellipsis for k in key):
+        if _b.any(k is Ellipsis for k in key):
             i = next(i for i, k in enumerate(key) if k is Ellipsis)
             nfill = self.ndim - (len(key) - 1 - sum(1 for k in key if k is None))
             key = key[:i] + (slice(None),) * nfill + key[i + 1:]
@@ -696,7 +697,7 @@ class ndarray:
             self._idx[sum(i * st for i, st in zip(combo, strides))]
             for combo in itertools.product(*per_dim)
         ] if per_dim else list(self._idx)
-        scalar = all(not isinstance(k, slice) and k is not None for k in key) and len(key) >= self.ndim
+        scalar = _b.all(not isinstance(k, slice) and k is not None for k in key) and len(key) >= self.ndim
         return tuple(new_shape), new_idx, scalar and not new_shape
 
     def __getitem__(self, key):
@@ -760,8 +761,19 @@ class ndarray:
                     for j, v in enumerate(rec):
                         self._buf[p + j] = v
                 return
+            if isinstance(value, (float, int, SFloat, _rnp.floating, _rnp.integer)) and not isinstance(value, bool):
+                # a scalar is broadcast to every field of every record
+                codes = self.dtype.leaf_codes()
+                rec = [to_leaf(leaf_in(value, c), c) for c in codes]
+                for p in self._idx:
+                    for j, v in enumerate(rec):
+                        self._buf[p + j] = v
+                return
             raise UnsupportedInShim(f"structured assignment from {type(value).__name__}")
         code = self.dtype.code
+        if code == "O" and self.shape == ():
+            self._buf[self._idx[0]] = value
+            return
         if isinstance(value, (list, tuple)) and code != "O":
             value = array(value)
         if isinstance(value, ndarray):
@@ -1095,7 +1107,7 @@ def _broadcast_idx(src: ndarray, shape: tuple) -> list:
     if len(src.shape) > len(shape):
         # numpy allows leading 1-dims to be dropped in assignment
         lead = src.shape[: len(src.shape) - len(shape)]
-        if all(d == 1 for d in lead):
+        if _b.all(d == 1 for d in lead):
             return _broadcast_idx(ndarray._mk(src.shape[len(lead):], src.dtype, src._buf, src._idx), shape)
         raise ValueError(f"could not broadcast input array from shape {src.shape} into shape {tuple(shape)}")
     ps = (1,) * (len(shape) - len(src.shape)) + tuple(src.shape)
@@ -1170,7 +1182,7 @@ def _fresh_leaf(code: str):
 def empty(shape, dtype=float, order="C") -> ndarray:
     dt = globals()["dtype"](dtype)
     shape = _norm_shape(shape)
-    if any(s < 0 for s in shape):
+    if _b.any(s < 0 for s in shape):
         raise ValueError("negative dimensions are not allowed")
     if dt._base is not None:
         shape = shape + dt.shape
@@ -1226,7 +1238,7 @@ def _infer(obj):
             return (0,), [], None
         subs = [_infer(x) for x in obj]
         shp0 = subs[0][0]
-        if any(s[0] != shp0 for s in subs):
+        if _b.any(s[0] != shp0 for s in subs):
             raise ValueError(
                 "setting an array element with a sequence. The requested array has an inhomogeneous "
                 f"shape after {1} dimensions. The detected shape was ({len(obj)},) + inhomogeneous part."
